@@ -8,7 +8,18 @@ KINDS = {
 }
 
 
+def pick_kind(kind, spec_text):
+    """'offline~' / 'online~': the caller needs an offline- (online-) capable specification and does not care which class provides it;
+    a third of the specification texts (chosen by a hash of the text, so deterministically) get the class that has both monitors,
+    so that the wrapper code of both classes is exercised by the same families"""
+    if kind.endswith('~'):
+        import zlib
+        return 'combined' if zlib.crc32(spec_text.encode()) % 3 == 0 else kind[:-1]
+    return kind
+
+
 def make_spec(kind, spec_text, vars_, pastify=False, unit=None, consts=(), io=None, **kw):
+    kind = pick_kind(kind, spec_text)
     s = KINDS[kind](**kw)
     for v in vars_:
         s.declare_var(v, 'float')
